@@ -1,7 +1,7 @@
 """Case generators for exclusive access (C13) and concurrent reads (C17)."""
 from common import *
 from gens_codec import hx, image_py, enc_header_py
-from gens_cli import fill_ops, CLI_LAYOUTS
+from gens_cli import fill_ops, CLI_LAYOUTS, lay_csv, observe_all
 
 
 def waitopen_lines(rnd):
@@ -17,6 +17,8 @@ def gen_c13(rnd, n, thorough=False):
     cases = []
     for c in range(n):
         kind = rnd.pick(['failed_open', 'failed_open', 'block', 'proc', 'sessions', 'waitopen', 'childhold', 'dblclose', 'lockcreate', 'recreatewait'])
+        if c == 3:
+            kind = 'copysession'
         lines = []
         if kind == 'failed_open':
             # every way Open can fail after the descriptor was obtained (and a control that succeeds)
@@ -61,6 +63,16 @@ def gen_c13(rnd, n, thorough=False):
         elif kind == 'lockcreate':
             lines += ["lockcreate f", "lockblock f"]
             tags = {'kind': kind}
+        elif kind == 'copysession':
+            # a copy whose source is fetched from a server is one open-modify-Sync-close session on its
+            # destination: the destination stays locked while the source is being fetched
+            layout = CLI_LAYOUTS[rnd.pick(['two_1s', 'three_2s', 'single'])]
+            lines += fill_ops(rnd, 's/a.wsp', layout, 2, 0x3f000000, density=0.6, inconsistent=False)
+            if rnd.chance(0.6):
+                lines += fill_ops(rnd, 'd/a.wsp', layout, 2, 0x3f000000, density=0.4, inconsistent=False)
+            lines.append("clicopy src=s:a.wsp dest=d:a.wsp from=0 until=0 archive=-1 copynan=0 m=2 x=3f000000 layout=%s remote=1 probe=1" % lay_csv(layout))
+            observe_all(lines, 'd/a.wsp', layout)
+            tags = {'kind': kind}
         elif kind == 'childhold':
             layout = [(1, 20), (5, 10)]
             lines += ["create f %s m 2 x 3f000000" % fmt_layout(layout), "sync f", "drop f", "childhold f"]
@@ -81,6 +93,8 @@ def gen_c17(rnd, n, thorough=False):
         kind = rnd.pick(['confetch', 'confetch', 'sum', 'http'])
         if c == 1:
             kind = 'sum_many'
+        if c == 2:
+            kind = 'sum'       # with a reader that waits more than a second for its file
         lines = []
         if kind == 'sum_many':
             # more files than any worker pool, read concurrently: all good, then every read failing
@@ -130,7 +144,7 @@ def gen_c17(rnd, n, thorough=False):
                 lines += ["create s/i1/a0.wsp %s m 2 x 3f000000" % fmt_layout(layout), "sync s/i1/a0.wsp", "drop s/i1/a0.wsp",
                           "create s/i2/z.wsp %s m 2 x 3f000000" % fmt_layout(layout), "sync s/i2/z.wsp", "drop s/i2/z.wsp"]
             held = rnd.randrange(nfiles)
-            lines.append("clisum base=s item=i1 src=*.wsp from=0 until=0 archive=-1 header=1 hold=s/i1/f%d.wsp:%d" % (held, rnd.pick([100, 300])))
+            lines.append("clisum base=s item=i1 src=*.wsp from=0 until=0 archive=-1 header=1 hold=s/i1/f%d.wsp:%d" % (held, 1300 if c == 2 else rnd.pick([100, 300])))
             if fresh:
                 lines.append("cliview src=s:i2/z.wsp from=0 until=0 archive=-1 header=0")
                 lines.append("clisum base=s item=i1 src=*.wsp from=0 until=0 archive=-1 header=1")
